@@ -3,7 +3,7 @@ import GqlModel.Validate.Engine
 namespace Gql.Validate.Rules
 open Gql Gql.Validate
 
-def loneAnonymousOperationStep (_ : Schema) (d : QueryDoc) (e : Event) : List RErr :=
+def loneAnonymousOperationStep (_ : SV) (d : QueryDoc) (e : Event) : List RErr :=
   match e.p with
   | .operation op _ =>
     if op.name == [] && d.ops.length > 1 then
